@@ -54,11 +54,20 @@ Frac(num, den) ==
    indeed have a larger denominator and agree to 6 decimals. *)
 RECURSIVE Digits(_, _, _, _)
 Digits(r, den, k, acc) == IF k = 0 THEN acc ELSE Digits((r * 10) % den, den, k - 1, acc * 10 + (r * 10) \div den)
-Scaled6(num, den) == (num \div den) * 1000000 + Digits(num % den, den, 6, 0)      \* num >= 0, den > 0
+(* TLC's integers are 32-bit: (r * 10) overflows once den exceeds 2^31 / 10.  Larger fractions are
+   first divided through by a common factor (an absolute error below 2e-8, far inside the comparison
+   to six decimals below, whose tolerance is then two units instead of one). *)
+BigDen == 100000000
+Shrunk(num, den) == IF den <= BigDen THEN <<num, den>>
+                    ELSE LET k == den \div BigDen + 1 IN <<num \div k, den \div k>>
+Scaled6(num, den) ==                                                      \* num >= 0, den > 0
+  LET f == Shrunk(num, den) IN (f[1] \div f[2]) * 1000000 + Digits(f[1] % f[2], f[2], 6, 0)
+Scaled7(num, den) ==                                                      \* num >= 0, den > 0
+  LET f == Shrunk(num, den) IN (f[1] \div f[2]) * 10000000 + Digits(f[1] % f[2], f[2], 7, 0)
 Approx6(logged, expected) ==
   LET s == Scaled6(Abs(expected[1]), expected[2])
       l == IF logged[2] = -1 THEN Abs(logged[1]) ELSE Scaled6(Abs(logged[1]), logged[2])
-  IN Abs(l - s) <= 1 /\ (logged[1] < 0 <=> expected[1] < 0)
+  IN Abs(l - s) <= (IF expected[2] > BigDen THEN 2 ELSE 1) /\ (logged[1] < 0 <=> expected[1] < 0)
 (* exact when the expectation has a small denominator (the reconstruction is then unique);
    when its denominator exceeds the reconstruction limit the harness logs either the
    scaled value or some other small fraction within its tolerance: compare to 6 decimals *)
